@@ -134,8 +134,49 @@ def make_threading(sim):
     def enumerate_():
         return [t for t in sim.threads if t.state in ("runnable", "blocked")]
 
+    Event_ = ns["Event"]
+
+    class Timer(object):
+        """threading.Timer on the simulated clock (CPython's Timer is a Thread subclass whose run() waits on an
+        Event with a timeout; the same here, on a simulator thread)."""
+
+        def __init__(self, interval, function, args=None, kwargs=None):
+            self.interval = interval
+            self.function = function
+            self.args = args if args is not None else []
+            self.kwargs = kwargs if kwargs is not None else {}
+            self.finished = Event_()
+            self.daemon = True
+            self.name = "Timer"
+            self._t = None
+
+        def _run(self):
+            self.finished.wait(self.interval)
+            if not self.finished.is_set():
+                self.function(*self.args, **self.kwargs)
+            self.finished.set()
+
+        def start(self):
+            self._t = Thread(target=self._run, name=self.name, daemon=self.daemon)
+            self._t.start()
+
+        def cancel(self):
+            self.finished.set()
+
+        def join(self, timeout=None):
+            if self._t is not None:
+                return self._t.join(timeout)
+
+        def is_alive(self):
+            return self._t is not None and self._t.is_alive()
+
     mod = types.SimpleNamespace(**{k: v for k, v in ns.items() if not k.startswith("__")})
     mod.Thread = Thread
+    mod.Timer = Timer
+    # simulator threads are real threads parked on a baton: thread-local storage is the interpreter's own
+    mod.local = _real_threading.local
+    mod.get_native_id = lambda: sim.cur.tid
+    mod.ThreadError = RuntimeError
     mod.current_thread = current_thread
     mod.currentThread = current_thread
     mod.enumerate = enumerate_
@@ -158,9 +199,11 @@ def make_queue(sim, simthreading):
         "Empty": _real_queue.Empty,
         "Full": _real_queue.Full,
     }
-    src = textwrap.dedent(inspect.getsource(_real_queue.Queue))
-    exec(compile(src, "<simqueue:Queue>", "exec"), ns)
-    mod = types.SimpleNamespace(Queue=ns["Queue"], Empty=_real_queue.Empty,
+    for cname in ("Queue", "PriorityQueue", "LifoQueue", "_PySimpleQueue"):
+        src = textwrap.dedent(inspect.getsource(getattr(_real_queue, cname)))
+        exec(compile(src, "<simqueue:%s>" % cname, "exec"), ns)
+    mod = types.SimpleNamespace(Queue=ns["Queue"], PriorityQueue=ns["PriorityQueue"], LifoQueue=ns["LifoQueue"],
+                                SimpleQueue=ns["_PySimpleQueue"], Empty=_real_queue.Empty,
                                 Full=_real_queue.Full)
     return mod
 
@@ -178,8 +221,32 @@ def make_time(sim):
         sim.prim()
         return sim.monotonic()
 
+    import time as _rt
+
+    def time_ns():
+        return int(time_() * 1e9)
+
+    def monotonic_ns():
+        return int(monotonic() * 1e9)
+
+    def gmtime(secs=None):
+        return _rt.gmtime(time_() if secs is None else secs)
+
+    def localtime(secs=None):
+        return _rt.gmtime(time_() if secs is None else secs)      # the simulated host runs on UTC
+
+    def strftime(fmt, t=None):
+        return _rt.strftime(fmt, gmtime() if t is None else t)
+
+    def ctime(secs=None):
+        return _rt.asctime(gmtime(secs))
+
     return types.SimpleNamespace(sleep=sleep, time=time_, monotonic=monotonic,
-                                 perf_counter=monotonic)
+                                 perf_counter=monotonic, process_time=monotonic, time_ns=time_ns,
+                                 monotonic_ns=monotonic_ns, perf_counter_ns=monotonic_ns,
+                                 gmtime=gmtime, localtime=localtime, strftime=strftime, ctime=ctime,
+                                 asctime=_rt.asctime, mktime=_rt.mktime, struct_time=_rt.struct_time,
+                                 timezone=0, altzone=0, daylight=0, tzname=("UTC", "UTC"))
 
 
 def make_datetime(sim):
